@@ -7,6 +7,13 @@
 (* breached entity; soft-rule breaches never yield an error; no breach     *)
 (* yields no error anywhere.                                               *)
 (*                                                                         *)
+(* The file is edited IN PLACE: breaches are injected and repaired one by   *)
+(* one, the file may be closed and reopened, and the validator may run at   *)
+(* any point, any number of times.  Its verdict is a function of the        *)
+(* breaches present at that moment and of nothing else (HistoryFree): not   *)
+(* of earlier verdicts, of what an earlier run looked at, nor of the order  *)
+(* in which the file got into its state.                                    *)
+(*                                                                         *)
 (* Entities of the base file:                                              *)
 (*   A1  array, rank 2, dims D11 (sampled, unit ms) and D12 (range, unit mV)*)
 (*   A2  array, rank 1, dim D21 (set with labels)                          *)
@@ -43,27 +50,57 @@ Rules == [
   poly_noorigin |-> [hard |-> FALSE, at |-> "A1"],
   origin_nopoly |-> [hard |-> FALSE, at |-> "A2"],
   offset_nounit |-> [hard |-> FALSE, at |-> "D11"],
-  prop_nounit   |-> [hard |-> FALSE, at |-> "PR"] ]
+  prop_nounit   |-> [hard |-> FALSE, at |-> "PR"],
+  dimunit1      |-> [hard |-> TRUE,  at |-> "T"],    \* unit of A1's first DIMENSION changed to one the tag's unit is not convertible to
+  dimunit2      |-> [hard |-> TRUE,  at |-> "T"] ]
 Breaches == DOMAIN Rules
 
 \* combinations that cannot be built together (they change the same attribute in incompatible ways)
-Compatible(B) == /\ ~({"tagunit1", "tagunit2"} \subseteq B)       \* each is "only this dimension is wrong"
+Compatible(B) == /\ Cardinality(B \cap {"tagunit1", "tagunit2", "dimunit1", "dimunit2"}) <= 1   \* each is "only this one is wrong"
                  /\ ~({"interval0", "offset_nounit"} \subseteq B)  \* offset_nounit removes the unit the tag-unit check needs: keep apart from unit rules
                  /\ ~({"offset_nounit", "tagunit1"} \subseteq B)
-                 /\ ~({"poly_noorigin", "origin_nopoly"} \subseteq {})
+                 /\ ~({"offset_nounit", "dimunit1"} \subseteq B)
+
+\* breaches that can be taken back in place (the others delete something that cannot be re-created under the same id)
+Repairable == Breaches \ {"ndims_extra", "ndims_extra2", "nopositions", "featnodata", "featnodata2"}
 
 ErrorAt(B) == {Rules[b].at : b \in {x \in B : Rules[x].hard}}
 
-CONSTANTS MaxBreaches
-VARIABLES c, done
-vars == <<c, done>>
-Init == /\ c \in {B \in SUBSET Breaches : Cardinality(B) <= MaxBreaches /\ Compatible(B)} /\ done = FALSE
-Eval == ~done /\ done' = TRUE /\ c' = c
-Spec == Init /\ [][Eval]_vars
+CONSTANTS MaxBreaches,   \* breaches already present when the history starts (old function-like mode: any subset up to this size)
+          MaxSteps, Acts
+VARIABLES cur,      \* breaches present in the file
+          vs,       \* the states (breach sets) at which the validator has already run: what a stateful validator could remember
+          c0,       \* breaches already present when the history starts (never changes)
+          steps, last, hist
+vars == <<cur, vs, c0, steps, last, hist>>
+NoErr == [e \in Entities |-> FALSE]
+Call(a, b, B) == [a |-> a, b |-> b, errors |-> [e \in Entities |-> e \in ErrorAt(B)]]
+Step(c) == last' = c /\ hist' = Append(hist, c) /\ steps' = steps + 1 /\ c0' = c0
+Room == steps < MaxSteps
 
-Sound == (c = {}) => ErrorAt(c) = {}
-SoftNeverError == (\A b \in c : ~Rules[b].hard) => ErrorAt(c) = {}
-Complete == \A b \in c : Rules[b].hard => Rules[b].at \in ErrorAt(c)
+Inject(b) == /\ Room /\ b \notin cur /\ Compatible(cur \cup {b}) /\ cur' = cur \cup {b} /\ vs' = vs /\ Step(Call("Inject", b, {}))
+Repair(b) == /\ Room /\ b \in cur /\ b \in Repairable /\ cur' = cur \ {b} /\ vs' = vs /\ Step(Call("Repair", b, {}))
+Reopen    == /\ Room /\ UNCHANGED <<cur, vs>> /\ Step(Call("Reopen", "", {}))
+Validate  == /\ Room /\ cur' = cur /\ vs' = vs \cup {cur} /\ Step(Call("Validate", "", cur))
 
-Emit == EmitJson([m |-> "valid", bs |-> [b \in Breaches |-> b \in c], errors |-> [e \in Entities |-> e \in ErrorAt(c)]])
+Init == /\ cur \in {B \in SUBSET Breaches : Cardinality(B) <= MaxBreaches /\ Compatible(B)}
+        /\ c0 = cur /\ vs = {} /\ steps = 0 /\ last = Call("Init", "", {}) /\ hist = <<>>
+Next == \/ "Inject" \in Acts /\ \E b \in Breaches : Inject(b)
+        \/ "Repair" \in Acts /\ \E b \in Breaches : Repair(b)
+        \/ "Reopen" \in Acts /\ Reopen
+        \/ Validate
+Spec == Init /\ [][Next]_vars
+
+Expected(B) == [e \in Entities |-> e \in ErrorAt(B)]
+Sound == (cur = {}) => ErrorAt(cur) = {}
+SoftNeverError == (\A b \in cur : ~Rules[b].hard) => ErrorAt(cur) = {}
+Complete == \A b \in cur : Rules[b].hard => Rules[b].at \in ErrorAt(cur)
+\* the verdict of a run depends on the breaches present and on nothing else
+HistoryFree == [][last'.a = "Validate" => last'.errors = Expected(cur')]_vars
+\* a repaired file validates like one that never had the breach; in particular the conforming file has no error again
+RepairRestores == [][(last'.a = "Validate" /\ cur' = {}) => \A e \in Entities : ~last'.errors[e]]_vars
+
+View == <<cur, vs, c0, steps>>
+Emit == (last'.a = "Validate") =>
+          EmitJson([m |-> "valid", init |-> [b \in Breaches |-> b \in c0], pre |-> hist, step |-> last'])
 =============================================================================
